@@ -226,5 +226,7 @@ class VBPTC3211:
     @staticmethod
     def set_parity(column: numpy.ndarray, even_parity: bool = True) -> numpy.ndarray:
         assert len(column) == 2
+        # parity is written into a private copy, not into the caller's column
+        column = numpy.array(column)
         column[1] = column[0] if even_parity else not column[0]
         return column
